@@ -333,7 +333,11 @@ impl<
         let (starts, ends) = (self.civil_starts(), self.civil_ends());
         assert!(!starts.is_empty(), "transitions is non-empty");
         let this_index = match starts.binary_search(&dtt) {
-            Err(0) => unreachable!("impossible to come before DateTime::MIN"),
+            // The first transition is a dummy at `Timestamp::MIN`, but its
+            // civil start is `Timestamp::MIN` plus its offset, which is
+            // usually *after* `DateTime::MIN`. Civil datetimes before it are
+            // covered by the same (first) local time type.
+            Err(0) => 0,
             Ok(i) => i,
             Err(i) => i.checked_sub(1).expect("i is non-zero"),
         };
